@@ -137,7 +137,7 @@ def _as_job(job):
     pred = _mirror_obs(a)
     for k, v in pred["scalars"].items():
         e = _cmp(b["scalars"][k], v, tol, 1e-6)
-        if e > tol:
+        if not (e <= tol):
             bad.append(("as:%s:%s:%s" % (what, job["fem"], k), {"err": e}))
     fscale = float(np.max(np.abs(a["loads"][:, :3])))
     for k in ("CM", "cg", "disp", "loads", "vonmises", "sec_forces", "def_mesh"):
@@ -146,11 +146,11 @@ def _as_job(job):
             # translations and rotations have different magnitudes: compare separately
             for nm, sl in (("disp_u", slice(0, 3)), ("disp_r", slice(3, 6))):
                 e = _cmp(b[k][:, sl], pred[k][:, sl], tol)
-                if e > tol:
+                if not (e <= tol):
                     bad.append(("as:%s:%s:%s" % (what, job["fem"], nm), {"err": e}))
             continue
         e = _cmp(b[k], pred[k], tol, floor)
-        if e > tol:
+        if not (e <= tol):
             bad.append(("as:%s:%s:%s" % (what, job["fem"], k), {"err": e, "a": b[k].tolist() if b[k].size < 40 else None, "pred": pred[k].tolist() if pred[k].size < 40 else None}))
     return {"k": job["k"], "job": job, "key": ["as_" + what, job["fem"], job["k"]], "bad": bad}
 
@@ -199,17 +199,17 @@ def _lr_job(job):
     bad = []
     gname = job.get("tag") or "+".join(sorted(job["geo"]))
     e = _cmp(Rr["mesh"], B.mirror_mesh(L["mesh"]), tol)
-    if e > tol:
+    if not (e <= tol):
         bad.append(("lr:%s:mesh" % gname, {"err": e}))
     for k in ("CL", "CD"):
         e = _cmp(Rr[k], L[k], tol, 1e-3)
-        if e > tol:
+        if not (e <= tol):
             bad.append(("lr:%s:%s" % (gname, k), {"err": e}))
     e = _cmp(Rr["CM"], L["CM"] * AXIAL, tol, 1e-3)
-    if e > tol:
+    if not (e <= tol):
         bad.append(("lr:%s:CM" % gname, {"err": e}))
     e = _cmp(Rr["sec_forces"], L["sec_forces"][:, ::-1, :] * POLAR, tol)
-    if e > tol:
+    if not (e <= tol):
         bad.append(("lr:%s:sec_forces" % gname, {"err": e}))
     # the design variables must have had an effect at all (non-vacuity)
     moved = float(np.max(np.abs(L["mesh"] - L["in_mesh"])))
